@@ -118,17 +118,25 @@ func (s *Server) CodeAction(ctx context.Context, params *protocol.CodeActionPara
 		}
 
 		for j, changes := range codeAction.Edit.DocumentChanges {
+			if changes.TextDocumentEdit == nil {
+				continue
+			}
+			// only edits of generated template files are moved to their template
+			isGohtGoFile, editURI := toGohtURI(changes.TextDocumentEdit.TextDocument.URI)
+			if !isGohtGoFile {
+				continue
+			}
 			var te protocol.TextEdit
 			var ok bool
 			for k, textEdit := range changes.TextDocumentEdit.Edits {
 				if te, ok = textEdit.Value.(protocol.TextEdit); !ok {
 					continue
 				}
-				te.Range = s.goRangeToGohtRange(gohtURI, te.Range)
+				te.Range = s.goRangeToGohtRange(editURI, te.Range)
 				textEdit.Value = te
 				changes.TextDocumentEdit.Edits[k] = textEdit
 			}
-			changes.TextDocumentEdit.TextDocument.URI = gohtURI
+			changes.TextDocumentEdit.TextDocument.URI = editURI
 			codeAction.Edit.DocumentChanges[j] = changes
 		}
 		resp[i] = codeAction
